@@ -6,3 +6,5 @@ pub mod c09;
 pub mod c13;
 pub mod c18;
 pub mod c05;
+pub mod conn;
+pub mod connrun;
